@@ -42,81 +42,61 @@ func (f *FSpec) String() string {
 	}
 }
 
-// Eval evaluates the component part of the filter on a component set.
-func (f *FSpec) Eval(has func(int) bool) bool {
+// Eval evaluates the component part of the filter on a component set given
+// by a membership function and its size.
+func (f *FSpec) Eval(has func(int) bool, n int) bool {
+	all := func(ids []int) bool {
+		for _, id := range ids {
+			if !has(id) {
+				return false
+			}
+		}
+		return true
+	}
+	anyOf := func(ids []int) bool {
+		for _, id := range ids {
+			if has(id) {
+				return true
+			}
+		}
+		return false
+	}
 	switch f.K {
 	case "all":
-		for _, id := range f.IDs {
-			if !has(id) {
-				return false
-			}
-		}
-		return true
+		return all(f.IDs)
 	case "without":
-		for _, id := range f.IDs {
-			if !has(id) {
-				return false
-			}
-		}
-		for _, id := range f.Ex {
-			if has(id) {
-				return false
-			}
-		}
-		return true
+		return all(f.IDs) && !anyOf(f.Ex)
+	case "excl":
+		return all(f.IDs) && n == len(uniq(f.IDs))
 	case "any":
-		for _, id := range f.IDs {
-			if has(id) {
-				return true
-			}
-		}
-		return false
+		return anyOf(f.IDs)
 	case "noneof":
-		for _, id := range f.IDs {
-			if has(id) {
-				return false
-			}
-		}
-		return true
+		return !anyOf(f.IDs)
 	case "anynot":
-		for _, id := range f.IDs {
-			if !has(id) {
-				return true
-			}
-		}
-		return false
+		return !all(f.IDs)
 	case "and":
-		return f.L.Eval(has) && f.R.Eval(has)
+		return f.L.Eval(has, n) && f.R.Eval(has, n)
 	case "or":
-		return f.L.Eval(has) || f.R.Eval(has)
+		return f.L.Eval(has, n) || f.R.Eval(has, n)
 	case "xor":
-		return f.L.Eval(has) != f.R.Eval(has)
+		return f.L.Eval(has, n) != f.R.Eval(has, n)
 	case "not":
-		return !f.L.Eval(has)
+		return !f.L.Eval(has, n)
 	case "rel":
-		return f.L.Eval(has)
+		return f.L.Eval(has, n)
 	}
 	panic("bad fspec kind " + f.K)
 }
 
-// EvalSet evaluates on a set given as map, with the total number of IDs for "excl".
+// EvalSet evaluates on a set given as map.
 func (f *FSpec) EvalSet(set map[int]bool) bool {
-	if f.K == "excl" {
-		return evalExcl(f, set)
-	}
-	return f.evalSetRec(set)
-}
-
-func evalExcl(f *FSpec, set map[int]bool) bool {
-	if len(set) != len(uniq(f.IDs)) {
-		return false
-	}
-	for _, id := range f.IDs {
-		if !set[id] {
-			return false
+	n := 0
+	for _, v := range set {
+		if v {
+			n++
 		}
 	}
-	return true
+	return f.Eval(func(i int) bool { return set[i] }, n)
 }
 
 func uniq(xs []int) []int {
@@ -130,24 +110,6 @@ func uniq(xs []int) []int {
 	}
 	sort.Ints(r)
 	return r
-}
-
-func (f *FSpec) evalSetRec(set map[int]bool) bool {
-	switch f.K {
-	case "excl":
-		return evalExcl(f, set)
-	case "and":
-		return f.L.evalSetRec(set) && f.R.evalSetRec(set)
-	case "or":
-		return f.L.evalSetRec(set) || f.R.evalSetRec(set)
-	case "xor":
-		return f.L.evalSetRec(set) != f.R.evalSetRec(set)
-	case "not":
-		return !f.L.evalSetRec(set)
-	case "rel":
-		return f.L.evalSetRec(set)
-	}
-	return f.Eval(func(i int) bool { return set[i] })
 }
 
 // Build turns the spec into a library filter. ids maps numbers to ecs.ID.
